@@ -139,6 +139,26 @@ pub fn scripts(seed: u64) -> Vec<Script> {
             ],
         },
         Script {
+            name: "standard, custom picture clock (ten-bit temporal references): I tr=5, P tr=261, P tr=773, P tr=774",
+            opts: 0,
+            calls: {
+                let hd = |inter: bool, tr: u16| -> Hdr {
+                    let mut h = StdHdr::custom(32, 16, inter, (tr & 255) as u8, 5);
+                    let p = h.plus.as_mut().unwrap();
+                    p.opp.custom_pcf = true;
+                    p.cpcfc = 0x8B;
+                    p.etr = (tr >> 8) as u8;
+                    Hdr::Std(h)
+                };
+                vec![
+                    a(encode_bytes(&noise_intra(hd(false, 5), seed ^ 13))),
+                    a(p_pic(hd(true, 261), &[Spec::Intra, Spec::Inter((2, -3), false)], 2)),
+                    a(p_pic(hd(true, 773), &[Spec::Inter((-4, 1), false), Spec::NotCoded], 2)),
+                    a(all_nc(hd(true, 774))),
+                ]
+            },
+        },
+        Script {
             name: "sorenson 24x19 (odd height): I, P with intra macroblocks in the clipped bottom row, D",
             opts: 1,
             calls: vec![
@@ -518,7 +538,17 @@ pub fn run(tier: Tier) -> Report {
                 if threads && !tier.thorough() && (i + j) % 2 == 1 {
                     continue;
                 }
-                let order: Vec<usize> = vec![0, 1, 0, 1, 0, 1];
+                // alternate the two instances until both scripts are used up
+                let (ci, cj) = (all[i].calls.len(), all[j].calls.len());
+                let mut order: Vec<usize> = vec![];
+                for k in 0..ci.max(cj) {
+                    if k < ci {
+                        order.push(0);
+                    }
+                    if k < cj {
+                        order.push(1);
+                    }
+                }
                 let out = std::process::Command::new(&exe)
                     .arg("det-child")
                     .arg(seed.to_string())
@@ -527,7 +557,7 @@ pub fn run(tier: Tier) -> Report {
                     .arg(if threads { "threads" } else { "same" })
                     .output();
                 n_child += 1;
-                rep.add_transitions(6);
+                rep.add_transitions(order.len() as u64);
                 let parsed: Option<Vec<Vec<Obs>>> = out.ok().and_then(|o| serde_json::from_slice(&o.stdout).ok());
                 match parsed {
                     None => rep.violation("C17/child-process-failed", format!("fresh process for scripts {i},{j} did not report"), json!({"kind": "det-child", "scripts": [i, j]})),
